@@ -123,6 +123,12 @@ func (proof MerkleProof) Verify(i int, leaf, root Hash) error {
 		parentPos = parentPos >> 1
 	}
 
+	// every bit of the position must have been consumed by the path: otherwise
+	// i is negative or not smaller than 2^len(proof)
+	if parentPos != 0 {
+		return errors.New("error: index out of range")
+	}
+
 	if curNode != root {
 		return errors.New("error: invalid proof")
 	}
